@@ -1,7 +1,44 @@
-(* C03 — PAR2 Verify is truthful (placeholder until Proofs/Par2Verify.v lands): what is proved so far. *)
-From Gopar Require Import Model.Base Model.CRC Model.GoPath Model.FS Model.Par2 Proofs.Par2Facts.
+(* C03 — PAR2 Verify is truthful: clean means intact, counts are sound and complete.
+   Model: Model/Par2.v (newDecoder, LoadFileData, LoadParityData, ShardCounts) over Model/FS.v with
+   the scan of Model/CRC.v.  Soundness and completeness of the per-slice counts are the scan theorems
+   of Props/C16.v (every counted slice carries the bytes of a window matching its checksum pair;
+   every cleanly present slice - in particular every slice of an undamaged file - is found). *)
+From Gopar Require Import Model.Base Model.CRC Model.GoPath Model.FS Model.Par2 Proofs.Par2Facts Proofs.Par2Verify.
 Open Scope N_scope.
 
+(* "no repair needed" is reported only when every protected file is present with the recorded
+   length, MD5 and first-16-KiB MD5 (= byte-identical to the protected content under the local
+   collision-freeness premise for MD5), for EVERY archive state *)
+Theorem C03_clean_means_intact : forall md5 ix fs c st,
+  par2_verify md5 ix (io_init fs []) = (Ok c, st) -> repair_needed c = false ->
+  exists ds st1, load_all md5 ix (io_init fs []) = (Ok ds, st1) /\
+    Forall (fun info => exists data, fs_lookup fs (file_path ix (di_name info)) = Some data /\
+              md5 data = di_hash info /\ hash16k md5 data = di_h16 info /\ N.of_nat (length data) = di_len info)
+           (d_rec (ds_dec ds)).
+Proof. exact verify_clean_intact. Qed.
+Print Assumptions C03_clean_means_intact.
+
+(* usable + unusable = the number of protected slices *)
+Theorem C03_counts_total : forall md5 ix st ds st1,
+  load_all md5 ix st = (Ok ds, st1) ->
+  (c_usable (shard_counts ds) + c_unusable (shard_counts ds))%nat
+  = fold_right (fun info acc => (length (di_pairs info) + acc)%nat) 0%nat (d_rec (ds_dec ds)).
+Proof. exact verify_counts_total. Qed.
+Print Assumptions C03_counts_total.
+
+(* the usable recovery-block count is the number of DISTINCT exponents among the intact recovery
+   packets loaded from the files beside the index *)
+Theorem C03_blocks_distinct : forall (acc : list (N * bytes)),
+  count_some (parity_array acc) = length (nodup N.eq_dec (map fst acc)).
+Proof. exact parity_count_distinct. Qed.
+Print Assumptions C03_blocks_distinct.
+
+(* repair is reported possible exactly when unusable slices do not outnumber usable blocks *)
 Theorem C03_possible_iff : forall c, repair_possible c = true <-> (c_unusable c <= c_pusable c)%nat.
-Proof. intros c. unfold repair_possible. apply Nat.leb_le. Qed.
+Proof. exact verify_possible_iff. Qed.
 Print Assumptions C03_possible_iff.
+
+(* Verify modifies nothing (C02) and never panics, for every state and fault schedule *)
+Theorem C03_no_panic : forall md5 ix st p, fst (par2_verify md5 ix st) <> Panic p.
+Proof. exact verify_no_panic. Qed.
+Print Assumptions C03_no_panic.
